@@ -8,6 +8,7 @@ from typing import Any
 
 from tranpsim import pools, tasks
 from tranpsim.core import HarnessError, ddmin, digest
+from tranpsim.corpus.zoo import ZOO
 from tranpsim.framework import Engine
 from tranpsim.persist import Project, library_seed
 from tranpsim.proc import sim_process
@@ -380,6 +381,8 @@ class C10Runner:
 		try:
 			for m, v in (case.get('state') or {}).items():
 				proj.set_variant(m, v, 10**9)
+			for m, src in ZOO.items():
+				proj.sc.write(pools.module_relpath(m), src.encode('utf-8'), 1_700_000_500 * 10**9)
 			try:
 				seed = library_seed()
 			except RuntimeError:
@@ -423,7 +426,7 @@ class C10(Engine):
 		cases: list[dict[str, Any]] = []
 		rng = random.Random(7)
 		pool = pools.fixed_pool(0)
-		for tree in [{'kind': 'module', 'module': m} for m in pool['modules'] + LIB_MODULES] + [{'kind': 'synthetic', 'seed': s, 'depth': 4, 'fanout': 4} for s in range(4)]:
+		for tree in [{'kind': 'module', 'module': m} for m in pool['modules'] + LIB_MODULES + sorted(ZOO)] + [{'kind': 'synthetic', 'seed': s, 'depth': 4, 'fanout': 4} for s in range(4)]:
 			scheds = []
 			scheds.append([{'q': k, 'p': 0} for k in QUERY_KINDS if k != 'ancestor'] + [{'q': 'ancestor', 'p': 5, 'tag': 'file_input'}])
 			scheds.append([{'q': 'expand', 'p': 1}, {'q': 'children', 'p': 1}, {'q': 'expand', 'p': 1}, {'q': 'n.props', 'p': 1}, {'q': 'clear', 'p': 0}, {'q': 'children', 'p': 1}, {'q': 'by', 'p': 1}, {'q': 'by', 'p': 1}])
@@ -438,7 +441,9 @@ class C10(Engine):
 		for m in pool['modules']:
 			if '-import' in pool['variants'][m][state[m]]['note']:
 				state[m] = 0
-		if r < 0.5:
+		if r < 0.2:
+			tree = {'kind': 'module', 'module': rng.choice(sorted(ZOO))}
+		elif r < 0.5:
 			tree = {'kind': 'module', 'module': rng.choice(pool['modules'])}
 		elif r < 0.65:
 			tree = {'kind': 'module', 'module': rng.choice(LIB_MODULES)}
